@@ -130,6 +130,8 @@ type stepObs struct {
 	Sent    int  `json:"sent"`    // datagrams the server emitted at this step
 	CliFin  bool `json:"clifin"`  // the client of this session had already finished BEFORE this step
 	CliDone bool `json:"clidone"` // ... and is done (success) AFTER this step
+	Tables  int  `json:"tables"`  // tracked handshakes + sessions of the dialled server after this step
+	SentTot int  `json:"senttot"` // datagrams that server has emitted so far
 }
 
 type result struct {
@@ -359,6 +361,9 @@ func replay(idx int, b *beh, seed int64) (res result) {
 			s := b.Dial[st.S-1]
 			ob.Acc = drain(s)
 			ob.Sent = res.Sent[s] - sentBefore
+			ob.SentTot = res.Sent[s]
+			nh, ns := srv[s].T.VerifTables()
+			ob.Tables = nh + ns
 			fin, err := cli[st.S].Finished()
 			ob.CliDone = fin && err == nil
 		}
